@@ -170,9 +170,12 @@ def s1(ctx, rep):
     from .common import returned_list_sites
     for x_, elt, at_, its in returned_list_sites(ctx, r):
         if isinstance(x_, ast.ListComp) and len(x_.generators) == 1 and x_.generators[0].iter is fa[0] and not at_ \
-                and isinstance(x_.generators[0].target, ast.Name) and isinstance(elt, ast.Call) and U(elt.func) == "json.loads" \
-                and U(argn(elt, 0)) == x_.generators[0].target.id:
-            ok = True
+                and isinstance(x_.generators[0].target, ast.Name) and isinstance(elt, ast.Call) and U(elt.func) == "json.loads":
+            tv_ = x_.generators[0].target.id
+            pl_ = argn(elt, 0)
+            if U(pl_) == tv_ or (fn_name(fa[0]) == "finditer" and isinstance(pl_, ast.Call) and fn_name(pl_) == "group"
+                                 and U(pl_.func.value) == tv_ and len(pl_.args) == 1 and U(pl_.args[0]) == "1"):
+                ok = True
     if loop:
         tv = loop[0].target.id if isinstance(loop[0].target, ast.Name) else None
         for st in loop[0].body:
